@@ -370,6 +370,31 @@ def constructor_obligations(chk, funcs):
                 ob = Ob(name, FAILED, backend="cpython-exhaustive", detail=detail)
                 attach(ob, code, True, bucket="O9")
                 chk.add(ob)
+            # history clause (bounded: one history per key): an earlier holder of the rule maps it in place to an element, as an
+            # element loop would; a later request of the same key must still deliver the tabulated rule
+            name2 = "C05/src.quadrature:{}/{}/O10-request-after-an-earlier-holder-rescaled-its-rule-in-place".format(cname, keystr(key))
+            hist = ("from src import quadrature as Q, quadrature_rules as T\nimport numpy as np\nraises_is_violation = True\n"
+                    "first = Q.{c}(*{a!r})\n"
+                    "for arr, (mul, add) in ((first.points, (0.125, 0.75)), (first.weights, (0.125, 0.0))):\n"
+                    "    try:\n        arr *= mul; arr += add\n    except (TypeError, ValueError):\n        pass\n"
+                    "want = T.{f}(*{k!r})\ngot = Q.{c}(*{a!r})\n"
+                    "observed = dict(first_weight_sum=float(np.sum(got.weights)), tabulated=float(np.sum(want[1])))\n"
+                    "violated = not (np.array_equal(got.points, np.array(want[0])) and np.array_equal(got.weights, np.array(want[1])))\n"
+                    ).format(f=fname, c=cname, k=key if isinstance(key, tuple) else (key,), a=args)
+            env = {}
+            try:
+                exec(hist, env)
+                bad, det = bool(env["violated"]), env.get("observed")
+            except Exception as e:      # noqa
+                bad, det = True, dict(raised=repr(e)[:200])
+            if not bad:
+                chk.add_bounded("constructor request after an earlier holder rescaled its rule in place", 1, 1,
+                                "one history per (constructor, key): request, in-place affine rescale of the returned arrays, request",
+                                "the second request delivers exactly the tabulated nodes and weights", [name2])
+            else:
+                ob = Ob(name2, FAILED, kind="bounded", backend="cpython (history: request, in-place rescale, request)", detail=det)
+                attach(ob, hist, True, bucket="O10")
+                chk.add(ob)
 
 
 def moment_replay_code(md):
